@@ -63,6 +63,19 @@ package common
 //@   loop range:g.IgnoreErrorFloderVec step [compiled-folder-rule-is-consulted] has(g.IgnoreErrorFileOrFloderRegexp, floderStr) ==> hits("(*regexp.Regexp).MatchString#0") == prev(hits("(*regexp.Regexp).MatchString#0")) + 1
 //@ end
 
+// ignore rules for whole files / folders: a path is declared NOT ignored only after every rule has been tried - a rule
+// that is not a valid regular expression acts as a plain substring rule and does not hide the rules after it
+//@ func (*GlobalConfig).isIgnoreFloder
+//@   props C17
+//@   ensures[not-ignored-only-after-every-folder-rule-was-tried] !result ==> hits("strings.Contains#0") == len(g.IgnoreHandleFolderVec)
+//@   loop 0 invariant rangeindex >= -1 && hits("strings.Contains#0") == rangeindex + 1 && rangeindex + 1 <= len(g.IgnoreHandleFolderVec)
+//@ end
+//@ func (*GlobalConfig).isIgnoreFile
+//@   props C17
+//@   ensures[not-ignored-only-after-every-file-rule-was-tried] !result ==> hits("strings.Contains#0") == len(g.IgnoreHandleFileVec)
+//@   loop 0 invariant rangeindex >= -1 && hits("strings.Contains#0") == rangeindex + 1 && rangeindex + 1 <= len(g.IgnoreHandleFileVec)
+//@ end
+
 //@ func (*GlobalConfig).IsSpecialCheck
 //@   props C17
 //@   sweep C01
@@ -147,7 +160,15 @@ package common
 //@ spec inInitCall(v *VarInfo, sl int, sc int, el int, ec int) bool = typeis(v.ReferExp, "*ast.FuncCallExp")
 //@      && locContains(as(v.ReferExp, "*ast.FuncCallExp").Loc.StartLine, as(v.ReferExp, "*ast.FuncCallExp").Loc.StartColumn,
 //@                     as(v.ReferExp, "*ast.FuncCallExp").Loc.EndLine, as(v.ReferExp, "*ast.FuncCallExp").Loc.EndColumn, sl, sc, el, ec)
+// The control variables of a for loop are visible in the loop body only - not in the expressions of the loop header
+// (`for i = i, n do`: the header i is the outer one); a lookup at the declaration itself still finds it. ForBodyLoc is
+// the body's range for a control variable and the zero range for every other local.
+//@ spec inForBody(v *VarInfo, sl int, sc int, el int, ec int) bool =
+//@      (v.ForBodyLoc.StartLine == 0 && v.ForBodyLoc.StartColumn == 0 && v.ForBodyLoc.EndLine == 0 && v.ForBodyLoc.EndColumn == 0)
+//@      || locContains(v.ForBodyLoc.StartLine, v.ForBodyLoc.StartColumn, v.ForBodyLoc.EndLine, v.ForBodyLoc.EndColumn, sl, sc, el, ec)
+//@      || locContains(v.Loc.StartLine, v.Loc.StartColumn, v.Loc.EndLine, v.Loc.EndColumn, sl, sc, el, ec)
 //@ spec visible(v *VarInfo, sl int, sc int, el int, ec int) bool = locBefore(v.Loc.StartLine, v.Loc.StartColumn, sl, sc)
+//@      && inForBody(v, sl, sc, el, ec)
 //@      && (selfFunc(v) || !(inInitFunc(v, sl, sc, el, ec) || inInitName(v, sl, sc, el, ec) || inInitCall(v, sl, sc, el, ec)))
 
 //@ func (*VarInfo).IsCorrectPosition
@@ -244,6 +265,10 @@ package common
 //@   at call append#2 before assert[variable-range-starts-at-its-declaration] oneLocInfo.ReferFunc == nil ==>
 //@        oneSymbol.Loc.StartLine == oneLocInfo.Loc.StartLine && oneSymbol.Loc.StartColumn == oneLocInfo.Loc.StartColumn
 //@   at call append#0 before assert[plain-variable-range-is-its-declaration] oneSymbol.Loc == oneLocInfo.Loc
+// a name declared several times in one scope is described by its LAST declaration there - the one that is in force
+// at the end of the scope and that members and function values are attached to
+//@   at call append#0 before assert[entry-describes-the-last-declaration-of-the-name] oneLocInfo == locVarinfoList.VarVec[len(locVarinfoList.VarVec) - 1]
+//@   at call append#2 before assert[entry-describes-the-last-declaration-of-the-name] oneLocInfo == locVarinfoList.VarVec[len(locVarinfoList.VarVec) - 1]
 //@   ensures[nested-blocks-are-visited] old(len(scope.LocVarMap)) == 0 && len(gScopes) == 0 && old(len(scope.SubScopes)) >= 1 ==> hits("FindAllLocalVal#0") >= 1
 //@   loop range:scope.SubScopes invariant rangeindex >= -1 && scopeInfos != nil && (rangeindex >= 0 ==> len(scopeInfos) >= 1) && hits("FindAllLocalVal#0") == 0 && !has(scopeInfos, 0)
 //@   loop range:gScopes invariant hits("FindAllLocalVal#0") == 0 && scopeInfos != nil && !has(scopeInfos, 0) && (len(gScopes) == 0 && old(len(scope.SubScopes)) >= 1 ==> len(scopeInfos) >= 1)
@@ -282,6 +307,14 @@ package common
 //@        && (isnil(as(node1, "*ast.FuncCallExp").NameExp) <==> isnil(as(node2, "*ast.FuncCallExp").NameExp))
 //@   ensures[function-literals-and-table-constructors-never-equal] typeis(node1, "*ast.FuncDefExp") || typeis(node1, "*ast.TableConstructorExp") ==> !result
 //@   loop 0 invariant 0 <= i && i <= len(exp1.Args) && len(exp1.Args) == len(exp2.Args) && forall(k, 0, i, CompExp(exp1.Args[k], exp2.Args[k]))
+//@ end
+
+// single-valued expression kinds (a name or a literal): exactly these, by node type
+//@ func IsOneValueType
+//@   props C20
+//@   functional
+//@   ensures[single-valued-iff-name-or-literal] result <==> (typeis(exp, "*ast.NameExp") || typeis(exp, "*ast.StringExp") || typeis(exp, "*ast.LuajitNum") || typeis(exp, "*ast.FloatExp")
+//@        || typeis(exp, "*ast.IntegerExp") || typeis(exp, "*ast.FalseExp") || typeis(exp, "*ast.TrueExp") || typeis(exp, "*ast.NilExp"))
 //@ end
 
 // GetExpName renders an expression to its canonical name string (AST immutable => functional).
